@@ -4,7 +4,7 @@
 use crate::gen::*;
 use crate::rng::Rng;
 
-pub const N_SHAPES: u64 = 18;
+pub const N_SHAPES: u64 = 19;
 
 fn one_dynamic_block(r: &mut Rng, w: &mut BitW, toks: &[Tok], last: bool, maxlen: u8, no_rle: bool) {
     let cfg = GenCfg {
@@ -375,7 +375,9 @@ pub fn shape(idx: u64, r: &mut Rng) -> (String, Vec<u8>, Vec<u8>) {
             name = "reference whose target lies about 4096 entries deep in its hash chain";
             // one distinctive record, then n records sharing its first four bytes, then a long match back
             // to the first: the measured chain depth is n (the header carries it in 16 bits; tables stop at 4096)
-            let n = *r.pick(&[4090usize, 4093, 4094, 4095, 4096, 4097, 2047, 2048, 1023, 1024]);
+            // the list is walked systematically by the shape index, so that 190 consecutive indices meet every value
+            let depths = [4090usize, 4093, 4094, 4095, 4096, 4097, 2047, 2048, 1023, 1024];
+            let n = depths[((idx / N_SHAPES) % depths.len() as u64) as usize];
             let head = *b"abcd";
             let mut toks = vec![];
             let first: Vec<u8> = (0..12).map(|_| b'A' + r.below(26) as u8).collect();
@@ -406,6 +408,74 @@ pub fn shape(idx: u64, r: &mut Rng) -> (String, Vec<u8>, Vec<u8>) {
             } else {
                 one_dynamic_block(r, &mut w, &toks, true, 15, false);
             }
+        }
+        17 => {
+            name = "literal/length code with 256 or 257 symbols of one length and longer codes in use";
+            // 256 literals of length 9 fill half of the code space; 256..262 take lengths 2..8; the rest is
+            // shared by length symbols with codes longer than 9 (count 256), or one more 9 and two 10s (257)
+            let mut ll = vec![0u8; 286];
+            for l in ll.iter_mut().take(256) {
+                *l = 9;
+            }
+            for (i, l) in (2u8..=8).enumerate() {
+                ll[256 + i] = l;
+            }
+            let mut deep: Vec<usize>;
+            if (idx / N_SHAPES) % 2 == 0 {
+                ll[263] = 10;
+                ll[264] = 10;
+                ll[265] = 10;
+                ll[266] = 10;
+                deep = vec![263, 264, 265, 266];
+            } else {
+                ll[263] = 10;
+                ll[264] = 10;
+                ll[265] = 9;
+                deep = vec![263, 264, 265];
+            }
+            // optionally push one of the length-10 symbols deeper: 10 -> 11, 12, .., d, d (still complete)
+            if r.chance(1, 2) {
+                let d = 11 + r.below(5) as u8;
+                let mut lens: Vec<u8> = (11..d).collect();
+                lens.push(d);
+                lens.push(d);
+                let mut slot = 264usize;
+                for l in lens {
+                    ll[slot] = l;
+                    if slot != 264 {
+                        deep.push(slot);
+                    }
+                    slot = if slot == 264 { 267 } else { slot + 1 };
+                }
+            }
+            let mut dl = vec![0u8; 30];
+            for l in dl.iter_mut().take(4) {
+                *l = 2;
+            }
+            let mut toks: Vec<Tok> = (0..8).map(|_| Tok::Lit(r.byte())).collect();
+            for _ in 0..200 + r.usize_below(600) {
+                if r.chance(1, 3) {
+                    // a length whose symbol is one of the long codes
+                    let sym = *r.pick(&deep);
+                    let i = sym - 257;
+                    let len = LEN_BASE[i] + if LEN_EXTRA[i] > 0 { r.below(1 << LEN_EXTRA[i]) as u16 } else { 0 };
+                    toks.push(Tok::Ref {
+                        len,
+                        dist: 1 + r.below(4) as u16,
+                        irr258: false,
+                    });
+                } else {
+                    toks.push(Tok::Lit(r.byte()));
+                }
+            }
+            apply(&mut plain, &toks);
+            w.put(1, 1);
+            w.put(2, 2);
+            let nr = r.chance(1, 3);
+            write_dynamic_header(r, &mut w, &ll, &dl, false, nr);
+            let llc = canon_codes(&ll);
+            let dlc = canon_codes(&dl);
+            write_tokens(&mut w, &toks, &ll, &llc, &dl, &dlc);
         }
         _ => {
             name = "single-literal and empty final blocks with every padding";
